@@ -5,6 +5,7 @@ import (
 	"context"
 	"encoding/json"
 	"fmt"
+	"github.com/prometheus/alertmanager/alert"
 	"io"
 	"log/slog"
 	"net"
@@ -69,6 +70,8 @@ type World struct {
 	CurAction  int
 	mu         sync.Mutex
 	asyncGoids map[uint64]bool
+	autoHolds  bool
+	workerOf   map[uint64]*workerTag
 	Scratch    map[string]any // per-run state of property-specific handlers
 	holdMu     sync.Mutex
 	holdHits   map[string]int
@@ -129,7 +132,7 @@ func NewWorld(p *Plan) *World {
 	}
 	os.MkdirAll(w.dir, 0o755)
 	if os.Getenv("VERIF_LOG") != "" {
-		w.logW = os.Stderr
+		w.logW = TraceBuf
 	}
 	simfs.Reset()
 	simfs.Latency = func(kind, path, caller string) time.Duration {
@@ -142,9 +145,17 @@ func NewWorld(p *Plan) *World {
 	w.wh = newWebhookWorld(w)
 	if p.Opts.Cluster {
 		w.Net = simnet.New(p.Seed, p.Start)
+		if verboseBodies {
+			w.Net.Trace = func(s string) { fmt.Fprintln(TraceBuf, "NET "+s) }
+		}
 	}
 	verifhook.GetFn = w.hookGet
 	verifhook.YieldFn = w.hookYield
+	for _, h := range p.Holds {
+		if strings.HasPrefix(h.Site, "auto.") {
+			w.autoHolds = true
+		}
+	}
 	for i, ip := range p.Insts {
 		w.Insts = append(w.Insts, &Inst{Idx: i, Name: ip.Name, CfgIdx: ip.Cfg,
 			DataDir: filepath.Join(w.dir, "data-"+ip.Name),
@@ -176,6 +187,13 @@ func (w *World) hookGet(key string, args ...any) any {
 			commoncfg.WithDialContextFunc(w.wh.dial),
 			commoncfg.WithKeepAlivesDisabled(),
 		}
+	case "dispatch.concurrency":
+		// the number of ingestion workers (the stock value derives from GOMAXPROCS,
+		// which stays 1 in a simulation process)
+		if n := w.Plan.Opts.Workers; n > 0 {
+			return n
+		}
+		return nil
 	case "cluster.transport":
 		if w.Net == nil {
 			return nil
@@ -188,6 +206,35 @@ func (w *World) hookGet(key string, args ...any) any {
 		}
 	}
 	return nil
+}
+
+// TraceBuf collects debugging output (VERIF_LOG / VERIF_VERBOSE=2) in memory;
+// it is written out after the run, so that tracing makes no system calls (which
+// would let the scheduler hand the P to another goroutine) while the run lasts.
+var TraceBuf = &traceBuffer{}
+
+type traceBuffer struct {
+	mu sync.Mutex
+	b  bytes.Buffer
+}
+
+func (t *traceBuffer) Write(p []byte) (int, error) {
+	t.mu.Lock()
+	defer t.mu.Unlock()
+	return t.b.Write(p)
+}
+
+// Flush writes the collected trace to stderr.
+func (t *traceBuffer) Flush() {
+	t.mu.Lock()
+	defer t.mu.Unlock()
+	os.Stderr.Write(t.b.Bytes())
+	t.b.Reset()
+}
+
+type workerTag struct {
+	key string
+	n   int
 }
 
 // goid returns the current goroutine's id (simulation only).
@@ -225,7 +272,46 @@ func (w *World) isAsync() bool {
 }
 
 func (w *World) hookYield(site string, args ...any) {
+	if j := w.Plan.RecvJitter; j > 0 && site == "dispatch.worker.recv" {
+		for _, a := range args {
+			if al, ok := a.(*alert.Alert); ok {
+				key := fmt.Sprintf("%s|%v|%d|%d|%d", al.Labels, al.Annotations, al.StartsAt.UnixNano(), al.EndsAt.UnixNano(), al.UpdatedAt.UnixNano())
+				time.Sleep(1 + Dur(Hash64(w.Plan.Seed, "recv-jitter", key)%uint64(j)))
+			}
+		}
+	}
 	if len(w.Plan.Holds) == 0 {
+		return
+	}
+	if site == "dispatch.worker.recv" && w.autoHolds {
+		// tag the worker with the update it now processes (lock-free ingestion path)
+		w.mu.Lock()
+		if w.workerOf == nil {
+			w.workerOf = map[uint64]*workerTag{}
+		}
+		w.workerOf[goid()] = &workerTag{key: w.canonYield(site, args)}
+		w.mu.Unlock()
+	}
+	if strings.HasPrefix(site, "auto.") {
+		if !w.autoHolds {
+			return
+		}
+		w.mu.Lock()
+		tag := w.workerOf[goid()]
+		var delay Dur
+		if tag != nil {
+			for _, h := range w.Plan.Holds {
+				if h.Site == site && strings.Contains(tag.key, h.Match) && h.Nth == tag.n {
+					delay = h.Delay
+				}
+			}
+			tag.n++
+		}
+		w.mu.Unlock()
+		if delay > 0 {
+			w.H.Fire("hold:" + site)
+			time.Sleep(delay)
+		}
 		return
 	}
 	var key string
@@ -329,14 +415,7 @@ func (w *World) StartInst(i int) error {
 		}
 		w.Net.SetAlive(in.Name, true)
 	}
-	prev := 0
-	if p.Opts.Workers > 0 {
-		prev = runtime.GOMAXPROCS(2 * p.Opts.Workers)
-	}
 	a, err := app.New(o)
-	if prev > 0 {
-		runtime.GOMAXPROCS(prev)
-	}
 	if err != nil {
 		w.H.AddEvent("start-failed", in.Name, err.Error())
 		return err
@@ -407,14 +486,7 @@ func (w *World) Reload(i, cfgIdx int) error {
 	if err := os.WriteFile(in.CfgFile, []byte(cfg.YAML(in.Name)), 0o644); err != nil {
 		return err
 	}
-	prev := 0
-	if w.Plan.Opts.Workers > 0 {
-		prev = runtime.GOMAXPROCS(2 * w.Plan.Opts.Workers)
-	}
 	err := in.App.Reload()
-	if prev > 0 {
-		runtime.GOMAXPROCS(prev)
-	}
 	if err != nil {
 		w.H.AddEvent("reload-rejected", in.Name, fmt.Sprintf("cfg=%d", cfgIdx))
 		w.H.Fire("reload-rejected")
@@ -773,7 +845,9 @@ func (ww *webhookWorld) ServeHTTP(rw http.ResponseWriter, r *http.Request) {
 		Truncated: p.TruncatedAlerts, Alerts: p.Alerts, PayloadReceiver: p.Receiver, BodyHash: shortHash(string(body))}
 	f := ww.fault(in.Name, in.Idx, parts[1], integ, n.T)
 	mode := "2xx"
-	lat := BaseLatency
+	// distinct per (instance, receiver, integration): integrations of one
+	// receiver are notified in parallel and must not answer at the same instant
+	lat := BaseLatency + Dur(integ)*1013 + Dur(in.Idx)*10007 + Dur(Hash64(0, parts[1])%911)
 	if f != nil {
 		mode = f.Mode
 		if f.Latency > 0 {
